@@ -792,3 +792,25 @@ func concStr(fr *frame, v value) string {
 }
 
 var _ = utf8.RuneError
+
+// ropeIter ranges over a string of symbolic bytes rune by rune, forking only
+// on the UTF-8 length class of each position.
+type ropeIter struct {
+	fr *frame
+	bs []value
+	i  int
+}
+
+func (it *ropeIter) next() tuple {
+	if it.i >= len(it.bs) {
+		return tuple{false, nil, nil}
+	}
+	rn := decodeRuneSym(it.fr, it.bs[it.i:]).(tuple)
+	pos := it.i
+	it.i += rn[1].(int)
+	return tuple{true, pos, rn[0]}
+}
+
+func bytesToRope(fr *frame, bs []value) value {
+	return conv(fr, types.Typ[types.String], types.NewSlice(types.Typ[types.Byte]), bs)
+}
